@@ -215,6 +215,14 @@ func parentMain(prop, tier string, extraArgs []string) int {
 	if harnessBug && code == 0 {
 		return 3
 	}
+	if code == 0 {
+		for _, o := range outs {
+			if o.TimedOut {
+				fmt.Printf("INCONCLUSIVE property=%s: the outer watchdog stopped batch %d before it finished (last case: %s); log kept under /verif/replays\n", prop, o.Spec.Batch, o.LastWAL)
+				return 3
+			}
+		}
+	}
 	return code
 }
 
